@@ -50,7 +50,7 @@ Definition mirror (w : world) : Prop :=
 (* commands of the stg command line (as opposed to plain-git scenario operations) *)
 Definition is_stg (c : cmd) : bool :=
   match c with
-  | GEdit _ _ | GCommit _ _ | GAmend _ _ | GResetHard _ | GMerge _ => false
+  | GEdit _ _ | GCommit _ _ | GAmend _ _ | GResetHard _ | GMerge _ | GConfigApc _ => false
   | _ => true
   end.
 
@@ -84,7 +84,7 @@ Definition Inv2 (w : world) : Prop :=
 Definition moves_branch (c : cmd) : bool :=
   match c with
   | CUncommit _ _ | CInit | CInspect | CLogClear
-  | GEdit _ _ | GCommit _ _ | GAmend _ _ | GResetHard _ | GMerge _ => false
+  | GEdit _ _ | GCommit _ _ | GAmend _ _ | GResetHard _ | GMerge _ | GConfigApc _ => false
   | _ => true
   end.
 
